@@ -224,7 +224,10 @@ MissingOf(I, c) ==
 Ready(I, c)  == LET m == MissingOf(I, c) IN m.mr = <<>> /\ m.mg = <<>>
 Args(I, c)   == [i \in DOMAIN Flat(c) |-> IF Has(I, Flat(c)[i]) THEN I[Flat(c)[i]] ELSE NoneV]
 Processed(I, c) == ~Has(I, c) /\ c \in Graph /\ prog[c].enabled      \* dr.py:1067-1069
-IgnoredNow(I, c) == \E i \in prog[c].ignore : Has(I, i)              \* dr.py:793
+(* id 0 in an ignore set (recorded executions only): the component was told  *)
+(* to keep quiet under a marker that every broker of the execution holds (an *)
+(* execution context for which a later implementation of its spec exists)    *)
+IgnoredNow(I, c) == \E i \in prog[c].ignore : (i = 0 \/ Has(I, i))   \* dr.py:793
 
 Exc(u, b, k, e) == [under |-> u, by |-> b, kind |-> k, el |-> e, tb |-> TRUE]
 SkipRec(c)      == IF ss THEN {Exc(c, c, "skip", 0)} ELSE {}
